@@ -226,6 +226,8 @@ func (k Keeper) SendPacket(ctx sdk.Context, packet types.Packet) (err error) {
 		return err
 	}
 
+	verifRouteHook(ctx, packet.TunnelID)
+
 	// send packet to the destination route and get the route result
 	var receipt types.PacketReceiptI
 	switch r := route.(type) {
